@@ -984,6 +984,15 @@ fn add_jitter(delay: &u64) -> Duration {
     Duration::from_millis(delay.saturating_sub(max_jitter / 2).saturating_add(jitter))
 }
 
+/// Verification accessor for the private [`add_jitter`] (see `verif_hooks::c34`).
+#[cfg(feature = "verif-hooks")]
+pub(crate) fn verif_add_jitter(delay: u64) -> Duration {
+    add_jitter(&delay)
+}
+/// Verification accessor for the private [`MAX_JITTER_PERCENT`].
+#[cfg(feature = "verif-hooks")]
+pub(crate) const VERIF_MAX_JITTER_PERCENT: u64 = MAX_JITTER_PERCENT;
+
 #[cfg(test)]
 pub(crate) mod tests {
     use std::sync::atomic::AtomicUsize;
